@@ -331,10 +331,10 @@ def _text_to_client(fl, ws, text, second):
         sut.close()
 
 
-@cond(quick=dict(S=3, timeout=170, parts=dict(FL=[0, 1], WS=[0, 1])), thorough=dict(S=5, timeout=1200, parts=dict(FL=[0, 1], WS=[0, 1])))
+@cond(quick=dict(S=3, SP=3, timeout=170, parts=dict(FL=[0, 1], WS=[0, 1])), thorough=dict(S=5, SP=4, timeout=1200, parts=dict(FL=[0, 1], WS=[0, 1])))
 def symbolic_text_to_client(fl: int, ws: int, text: str, second: bool) -> str:
     """
-    pre: fl == P.FL and ws == P.WS and len(text) <= P.S
+    pre: fl == P.FL and ws == P.WS and len(text) <= (P.S if P.WS else P.SP)
     post: _ == ''
     """
     if '\x1e' in text:
